@@ -307,6 +307,7 @@ class Gen:
 
     def if_stmt(self, depth):
         r = self.rng
+        cond = self.condition()
         saved = self.snapshot_scope()
         then = self.block(depth - 1)
         self.restore_scope(saved)
@@ -314,7 +315,7 @@ class Gen:
         if r.random() < 0.5:
             els = self.block(depth - 1)
             self.restore_scope(saved)
-        return [('if', self.condition(), then, els)]
+        return [('if', cond, then, els)]
 
     def snapshot_scope(self):
         return (list(self.globals), None if self.locals is None else list(self.locals),
